@@ -26,7 +26,7 @@ META = {
     "kind": "graph",
     "engine": "E1 explicit-state exploration of Receiver.listen()/callback() on a hand-stepped event loop",
     "rule": (
-        "acknowledge type x ack callback flavour (sync, async with gated completion) x outcome (return, raise, "
+        "acknowledge type x ack callback flavour (sync, coroutine with gated completion, plain function returning a Task) x outcome (return, raise, "
         "BaseException, timeout, timeout racing completion, no-result, backend failure, sync return/raise) for "
         "one message and for all pairs of messages processed concurrently (A=2) with save and ack completions "
         "as separate events; with and without a middleware carrying post_execute/post_save hooks. All orderings "
@@ -108,14 +108,14 @@ def _sc(at: Any, msgs: List[Dict[str, Any]], level: int, mws: bool, a: int = 2) 
 def _msg(name: str, ack: str, gated: bool) -> Dict[str, Any]:
     m = dict(OUTCOMES[name])
     m["ack"] = ack
-    m["gates"] = (["save"] if gated else []) + (["ack"] if ack == "async" else [])
+    m["gates"] = (["save"] if gated else []) + (["ack"] if ack in ("async", "future") else [])
     return m
 
 
 def scenarios(tier: str) -> List[Dict[str, Any]]:
     out: List[Dict[str, Any]] = []
     names = list(OUTCOMES)
-    for at, nm, ack, mws in itertools.product(ACK_TYPES, names, ("sync", "async"), (False, True)):
+    for at, nm, ack, mws in itertools.product(ACK_TYPES, names, ("sync", "async", "future"), (False, True)):
         out.append(_sc(at, [_msg(nm, ack, True)], 0, mws))
         out.append(_sc(at, [_msg(nm, ack, True)], 1, mws))
         if tier == "thorough":
